@@ -108,12 +108,16 @@ type PubState struct {
 }
 
 type ConsState struct {
-	Plan   ConsPlan
-	Rtmp   *actors.RtmpClient
-	Http   *actors.HttpClient
-	Joined bool
-	Left   bool
-	Kicked bool
+	Stalled     bool
+	StallAtMs   int64
+	StallStep   int
+	ResumedAtMs int64
+	Plan        ConsPlan
+	Rtmp        *actors.RtmpClient
+	Http        *actors.HttpClient
+	Joined      bool
+	Left        bool
+	Kicked      bool
 }
 
 func (c *ConsState) JoinDoneStep() int {
@@ -349,6 +353,38 @@ func (rr *RelayRun) exec(k *sim.Kernel, op RelayOp) {
 			c.Http = a
 			a.Connect(PortHttp, 50+op.Cons)
 			rr.W.Observe(a.Observe)
+		}
+	case "stall", "resume", "drip":
+		if op.Cons >= len(rr.Cons) || !rr.Cons[op.Cons].Joined {
+			return
+		}
+		c := rr.Cons[op.Cons]
+		var conn *sim.Conn
+		if c.Rtmp != nil {
+			conn = c.Rtmp.Conn
+		} else if c.Http != nil {
+			conn = c.Http.Conn
+		}
+		if conn == nil {
+			return
+		}
+		switch op.Kind {
+		case "stall":
+			// lal may write op.N more bytes, then its writes block (the consumer stopped reading)
+			conn.SetWindow(op.N)
+			if !c.Stalled {
+				c.Stalled = true
+				c.StallAtMs = k.NowMs()
+				c.StallStep = k.Step()
+			}
+			k.Fault("consumer_stall")
+		case "drip":
+			conn.AddWindow(op.N)
+			k.Fault("consumer_slow_read")
+		case "resume":
+			conn.SetWindow(-1)
+			c.ResumedAtMs = k.NowMs()
+			k.Fault("consumer_resume")
 		}
 	case "kick_pub", "kick_cons":
 		var remote, stream, target string
